@@ -498,6 +498,29 @@ def defaults(chk, prog):
         chk.ob("R5.defaults", CFG + "Config::from_tree", f"default of `{k}` equals Config::default()'s value", seen.get(k, "").strip("into()") .replace("into(", "").rstrip(")") in (v,) or v in seen.get(k, ""), f"{seen.get(k)}")
 
 
+NUMBER_KEYS = {"server.port": "u16", "server.threads": "usize", "server.timeout": "u64", "server.cache.size": "usize", "server.cache.time": "usize"}
+
+
+def number_ranges(chk, prog):
+    """R5.number_range: the validation rule of a numeric key is the range of the type it is parsed into — a port is a u16, sizes / counts /
+    seconds are unsigned.  Parsing into a wider or signed type and converting afterwards (`as u64`) accepts files the rule rejects (a negative
+    timeout then loads as "no timeout")."""
+    b = prog.bodies.get(CFG + "Config::from_tree")
+    if b is None:
+        return
+    n = 0
+    for blk, t in b.calls_to(r"ExtendedMap::get_(optional|compulsory)_parsed$"):
+        ks = [core.describe(prog, b, a) for a in t["args"]]
+        key = next((k[1] for k in ks if k[0] == "lit" and isinstance(k[1], str) and k[1] in NUMBER_KEYS), None)
+        if key is None:
+            continue
+        n += 1
+        ty = (t.get("gargs") or [""])[-1]
+        chk.ob("R5.number_range", b.path, f"`{key}` is parsed as {NUMBER_KEYS[key]}", ty == NUMBER_KEYS[key],
+               f"`{key}` is parsed as {ty}: values outside the range of {NUMBER_KEYS[key]} (e.g. negative ones) are no longer rejected but converted", where=b.where(blk))
+    chk.floor("numeric keys read by from_tree", n, 5)
+
+
 def errors_propagate(chk, prog):
     """R2.errors_propagate: a faulty file is rejected, never accepted with a different meaning.  The Result of every fallible step of the loader
     (a function of humphrey_server::config returning Result) is looked at where it is produced — `?`, a `match` / `if let` on it, or returned as
@@ -617,6 +640,7 @@ def run(chk):
     line_source(chk, prog)
     comments_everywhere(chk, prog)
     errors_propagate(chk, prog)
+    number_ranges(chk, prog)
     ordering(chk, prog)
     per_pattern_routes(chk, prog)
     quoted_values(chk, prog)
